@@ -619,4 +619,127 @@ theorem augmentLoop_model_fuel (reg : Registry) (mods : Array Nat) (s : PState)
       augmentLoop reg (pendingTotal s + 1) mods s :=
   augmentLoop_terminates reg _ mods s hnd (by unfold pendingTotal; omega)
 
+/-- The `Nodup` hypothesis is satisfiable on a non-trivial state (two trees, one pending augment). -/
+example : ∃ s : PState, s.pending ≠ [] ∧ (s.pending.map (·.1)).Nodup ∧ pendingTotal s = 1 :=
+  ⟨{ pending := [(0, [.mk { name := "a" } [] [] []]), (1, [])] }, by simp, by decide, rfl⟩
+
+/-- Why `Nodup` is needed: with the key `0` bound twice, `setPending` writes the one unapplied
+augment into both bindings, so the total grows from 1 to 2 although nothing was applied.
+(`processAll` builds `pending` by mapping over `distinctModules ++ distinctSubs`, one binding per
+loaded (sub)module.) -/
+theorem augmentTree_pending_needs_nodup :
+    ∃ s : PState, ¬ (s.pending.map (·.1)).Nodup ∧
+      pendingTotal (augmentTree {} 0 false s).1 + (augmentTree {} 0 false s).2.1 ≠ pendingTotal s :=
+  ⟨{ pending := [(0, [.mk {} [] [] []]), (0, [])] }, by decide, by decide⟩
+
+/-! ### (C) `dumpTree` -/
+
+theorem dumpTree_zero (reg : Registry) (f : Forest) (modName : String) (root : Entry) (id : Nat)
+    (path : Path) (e : Entry) : dumpTree reg f modName root id 0 path e = ["N out-of-fuel"] := rfl
+
+theorem dumpTree_succ (reg : Registry) (f : Forest) (modName : String) (root : Entry) (id : Nat)
+    (fuel : Nat) (path : Path) (e : Entry) :
+    dumpTree reg f modName root id (fuel + 1) path e =
+      dumpNode reg f modName root (id, path) e ::
+        (((sortBy (fun (a b : Entry) => a.name < b.name) e.dir).map fun c =>
+            dumpTree reg f modName root id fuel (path ++ [.child c.name]) c).flatten ++
+         (e.inp.map fun c => dumpTree reg f modName root id fuel (path ++ [.input]) c).flatten ++
+         (e.out.map fun c => dumpTree reg f modName root id fuel (path ++ [.output]) c).flatten) := rfl
+
+theorem entryDepth_eq (e : Entry) :
+    entryDepth e = 1 + max (entryDepth.depthL e.dir) (max (entryDepth.depthL e.inp) (entryDepth.depthL e.out)) := by
+  cases e with
+  | mk d c i o => rw [entryDepth]; rfl
+
+theorem entryDepth_le_depthL (c : Entry) (l : List Entry) (h : c ∈ l) : entryDepth c ≤ entryDepth.depthL l := by
+  induction l with
+  | nil => cases h
+  | cons x xs ih =>
+    rw [entryDepth.depthL]
+    rcases List.mem_cons.mp h with rfl | h'
+    · omega
+    · have := ih h'; omega
+
+theorem entryDepth_dir_lt (e c : Entry) (h : c ∈ e.dir) : entryDepth c < entryDepth e := by
+  have := entryDepth_le_depthL c _ h; have := entryDepth_eq e; omega
+
+theorem entryDepth_inp_lt (e c : Entry) (h : c ∈ e.inp) : entryDepth c < entryDepth e := by
+  have := entryDepth_le_depthL c _ h; have := entryDepth_eq e; omega
+
+theorem entryDepth_out_lt (e c : Entry) (h : c ∈ e.out) : entryDepth c < entryDepth e := by
+  have := entryDepth_le_depthL c _ h; have := entryDepth_eq e; omega
+
+/-- Two fuels at or above `entryDepth e` give the same dump. -/
+theorem dumpTree_fuel_eq (reg : Registry) (f : Forest) (modName : String) (root : Entry) (id : Nat)
+    (f1 f2 : Nat) (path : Path) (e : Entry) (h1 : entryDepth e ≤ f1) (h2 : entryDepth e ≤ f2) :
+    dumpTree reg f modName root id f1 path e = dumpTree reg f modName root id f2 path e := by
+  induction f1 generalizing f2 path e with
+  | zero => have := entryDepth_eq e; omega
+  | succ a ih =>
+    obtain ⟨b, rfl⟩ : ∃ b, f2 = b + 1 := ⟨f2 - 1, by have := entryDepth_eq e; omega⟩
+    rw [dumpTree_succ, dumpTree_succ]
+    have e1 : ((sortBy (fun (a b : Entry) => a.name < b.name) e.dir).map fun c =>
+          dumpTree reg f modName root id a (path ++ [.child c.name]) c) =
+        ((sortBy (fun (a b : Entry) => a.name < b.name) e.dir).map fun c =>
+          dumpTree reg f modName root id b (path ++ [.child c.name]) c) := by
+      apply List.map_congr_left
+      intro c hc
+      have := entryDepth_dir_lt e c ((mem_sortBy _ _ _).mp hc)
+      exact ih b _ c (by omega) (by omega)
+    have e2 : (e.inp.map fun c => dumpTree reg f modName root id a (path ++ [.input]) c) =
+        (e.inp.map fun c => dumpTree reg f modName root id b (path ++ [.input]) c) := by
+      apply List.map_congr_left
+      intro c hc
+      have := entryDepth_inp_lt e c hc
+      exact ih b _ c (by omega) (by omega)
+    have e3 : (e.out.map fun c => dumpTree reg f modName root id a (path ++ [.output]) c) =
+        (e.out.map fun c => dumpTree reg f modName root id b (path ++ [.output]) c) := by
+      apply List.map_congr_left
+      intro c hc
+      have := entryDepth_out_lt e c hc
+      exact ih b _ c (by omega) (by omega)
+    rw [e1, e2, e3]
+
+/-- C.1: from `entryDepth e` on the dump does not depend on the fuel (`dumpOutcome` gives
+`entryDepth root + 1`). -/
+theorem dumpTree_fuel_stable (reg : Registry) (f : Forest) (modName : String) (root : Entry) (id : Nat)
+    (fuel : Nat) (path : Path) (e : Entry) (h : entryDepth e ≤ fuel) :
+    dumpTree reg f modName root id fuel path e = dumpTree reg f modName root id (entryDepth e) path e :=
+  dumpTree_fuel_eq reg f modName root id _ _ path e h (Nat.le_refl _)
+
+/-- A node record is longer than the 13 bytes of the marker: the literal pieces `" kind="`,
+`" dir="`, `"] units="` of the interpolation alone have 19. -/
+theorem dumpNode_ne_marker (reg : Registry) (f : Forest) (modName : String) (root : Entry) (loc : Loc)
+    (e : Entry) : dumpNode reg f modName root loc e ≠ "N out-of-fuel" := by
+  intro h
+  have := congrArg String.length h
+  unfold dumpNode at this
+  simp only [String.length_append] at this
+  have h1 : (toString " kind=").length = 6 := by decide
+  have h2 : (toString " dir=").length = 5 := by decide
+  have h3 : (toString "] units=").length = 8 := by decide
+  have h4 : "N out-of-fuel".length = 13 := by decide
+  rw [h1, h2, h3, h4] at this
+  omega
+
+/-- C.2: with `entryDepth e` fuel (or more) the marker record never appears in the dump. -/
+theorem dumpTree_never_out_of_fuel (reg : Registry) (f : Forest) (modName : String) (root : Entry) (id : Nat)
+    (fuel : Nat) (path : Path) (e : Entry) (h : entryDepth e ≤ fuel) :
+    "N out-of-fuel" ∉ dumpTree reg f modName root id fuel path e := by
+  induction fuel generalizing path e with
+  | zero => have := entryDepth_eq e; omega
+  | succ n ih =>
+    rw [dumpTree_succ]
+    simp only [List.mem_cons, List.mem_append, List.mem_flatten, List.mem_map, not_or]
+    refine ⟨fun h' => dumpNode_ne_marker _ _ _ _ _ _ h'.symm, ⟨?_, ?_⟩, ?_⟩
+    · rintro ⟨l, ⟨c, hc, rfl⟩, hl⟩
+      have := entryDepth_dir_lt e c ((mem_sortBy _ _ _).mp hc)
+      exact ih _ c (by omega) hl
+    · rintro ⟨l, ⟨c, hc, rfl⟩, hl⟩
+      have := entryDepth_inp_lt e c hc
+      exact ih _ c (by omega) hl
+    · rintro ⟨l, ⟨c, hc, rfl⟩, hl⟩
+      have := entryDepth_out_lt e c hc
+      exact ih _ c (by omega) hl
+
 end Goyang.Lemmas.Fuel
